@@ -22,7 +22,7 @@ OptOf(e) == [preserve |-> e.preserve, explicit |-> e.explicit, chain |-> e.chain
              form |-> e.outform, preout |-> e.preout, skip |-> e.skip, unread |-> Unread(e)]
 \* unreadable entries touch nothing; a single archive without --skip-errors touches nothing at all if one entry is unreadable
 Predicted(e, guard) == IF EarlyAbortOf([i \in 1..Len(e.names) |-> e.names[i].c], OptOf(e)) THEN {}
-                       ELSE UNION {PredictTouched(ConcName(e.names[i], i - 1), OptOf(e), guard) : i \in (1..Len(e.names)) \ Unread(e)}
+                       ELSE UNION {PredictTouched(ConcName(e.names[i], e.names[i].ix), OptOf(e), guard) : i \in (1..Len(e.names)) \ Unread(e)}
 Observed(e) == ToSet(e.touched)
 
 \* classification of a rejected run (goes into the finding signature): is every outside path one the model of
